@@ -48,7 +48,7 @@ $(B)/simrt.o: $(SIM_OBJS) Makefile
 
 # harnesses that #include a repo .cpp (for access to private state) must not link the repo's own object of that file
 EXCL_c10_future = Future.o
-EXCL_c14_eventloop = Socket/Server.o
+EXCL_c14_eventloop = Future.o Error.o
 $(B)/%: $(B)/h/%.o $(B)/simrt.o $(REPO_OBJS) Makefile
 	$(CXX) $(filter-out $(addprefix $(B)/repo/,$(EXCL_$*)),$(filter %.o,$^)) -o $@ $(LDFLAGS)
 
